@@ -47,16 +47,23 @@ def Match.key (m : Match) : Nat × List Cap := (m.pat, m.caps)
 def CapEv.key (e : CapEv) : Nat × Nat × Cap := (e.pat, e.k, e.cap)
 
 /-- Clause (b): the restricted stream is the filter of the unrestricted one.  `dontCare` marks
-matches on which the code's own two range predicates disagree (zero-width root exactly at the end
-of a containing range: `range_within` accepts it, `range_intersects` — which gates the descent —
-does not); they are ignored on both sides. -/
-def judgeB (keep : Match → Bool) (dontCare : Match → Bool) (u r : List Match) : Bool :=
-  decide (((u.filter fun m => keep m && !dontCare m).map Match.key) =
-    ((r.filter fun m => !dontCare m).map Match.key))
+matches the clause does not constrain (zero-width roots, see `emptyRoot`); they are ignored on
+both sides. -/
+def judgeB (keep : Match → Bool) (dontCare : Match → Bool) (qfree : Bool) (u r : List Match) : Bool :=
+  let exp := u.filter fun m => keep m && !dontCare m
+  let got := r.filter fun m => !dontCare m
+  if qfree then decide (exp.map Match.key = got.map Match.key)
+  else
+    -- with quantifiers the surviving (longest) capture list may differ under a range: compare roots
+    let er := exp.map fun m => (m.pat, m.root)
+    let gr := got.map fun m => (m.pat, m.root)
+    er.all (fun x => gr.contains x) && gr.all (fun x => er.contains x)
 
-def emptyAtEnd (con : TSRange) (m : Match) : Bool :=
-  m.root.start_byte == m.root.end_byte &&
-    (m.root.end_byte == con.end_byte || decide (m.root.end_point = con.end_point))
+/-- Zero-width roots (MISSING tokens, empty rules): the code's conventions disagree with each other
+(`range_within` vs the `range_intersects` that gates descent; a parent that ends where the range
+starts is pruned although its empty last child intersects — see `range_intersects_parent` and the
+counterexample next to it), so clause (b) does not constrain them. -/
+def emptyRoot (m : Match) : Bool := m.root.start_byte == m.root.end_byte
 
 /-- Clause (c): identical streams (ids included). -/
 def judgeCm (a b : List Match) : Bool := decide (a = b)
@@ -83,10 +90,11 @@ def idUnique (u : List CapEv) (id : Nat) : Bool :=
 
 /-- Clause (e): after removing the match of the event at `pos`, the stream up to `pos` is
 unchanged; every capture of the *other* matches is still reported; nothing new is reported; and
-when the id names a single match and no triple is reported twice (no twin states of a quantified
-pattern), the captures only that match would still have delivered are gone.
+for a quantifier-free query in which the id names a single match and no triple is reported twice,
+the captures only that match would still have delivered are gone (with quantifiers a removal can
+revive an alternative, shorter match of the same nodes: implementation-defined).
 (Compared as triples: match ids of later states may be renumbered after a removal.) -/
-def judgeE (u e : List CapEv) (pos : Nat) : Bool :=
+def judgeE (u e : List CapEv) (pos : Nat) (qfree : Bool) : Bool :=
   match u[pos]? with
   | none => decide (u = e)
   | some x =>
@@ -98,7 +106,7 @@ def judgeE (u e : List CapEv) (pos : Nat) : Bool :=
     decide (e.take (pos + 1) = u.take (pos + 1)) &&
     subsetB others eLater &&
     subsetB eLater (u.map CapEv.triple) &&
-    (!(idUnique u x.id && decide ((u.map CapEv.triple).Nodup)) ||
+    (!(qfree && idUnique u x.id && decide ((u.map CapEv.triple).Nodup)) ||
       own.all fun t => others.contains t || before.contains t || !eLater.contains t)
 
 /-! ## (f) predicates -/
